@@ -333,6 +333,7 @@ func genFactor(kd fkind) func(g *vlib.G) {
 								qs := place(a, ldmin, nil)
 								qtau := poisonVec(k)
 								qtau0 := append([]float64(nil), qtau...)
+								ck.quietEmpty = !(f.name == "dd" && nb == nbs[0] && nx == 0)
 								query := workQuery(ck, kd.name, unit, k == 0, func(work []float64) {
 									kd.blocked(m, n, qs.d, ldmin, qtau, work, -1)
 								})
@@ -774,6 +775,7 @@ func genOrm(mk mkind) func(g *vlib.G) {
 										as := place(fr.out, ldaMin, keepV)
 										cs := place(c, imax(1, n), nil)
 										qtau := append([]float64(nil), fr.tau...)
+										ck.quietEmpty = !(f.name == "dd" && nb == nbs[0])
 										query := workQuery(ck, mk.name, nw, m == 0 || n == 0 || k == 0, func(work []float64) {
 											mk.blocked(side, trans, m, n, k, as.d, ldaMin, qtau, cs.d, imax(1, n), work, -1)
 										})
